@@ -88,9 +88,11 @@ def classes():
     L = lib()
 
     class RecSubscriber(L['Subscriber']):
-        def __init__(self, world, side, uid, dirn, n0=MAXN, refill=0, raise_at=None, cancel_at=None, error_raises=False):
+        def __init__(self, world, side, uid, dirn, n0=MAXN, refill=0, raise_at=None, cancel_at=None, error_raises=False,
+                     request_after_cancel=False):
             self.world, self.side, self.uid, self.dirn = world, side, uid, dirn
             self.error_raises = error_raises
+            self.request_after_cancel = request_after_cancel
             self.n0 = n0
             self.refill = refill
             self.subscription = None
@@ -139,6 +141,12 @@ def classes():
 
         # application actions
         def request(self, n):
+            if self.cancelled and self.request_after_cancel and not self.terminal and self.subscription is not None:
+                # Reactive Streams 3.6: request() after cancel() is legal and must be a no-op (an operator chain that asks for
+                # more while its downstream is going away does this)
+                self.ev('sub_request_after_cancel', n=n)
+                self.subscription.request(n)
+                return True
             if self.terminal or self.cancelled or self.subscription is None:
                 return False
             self.ev('sub_request', n=n)
